@@ -93,7 +93,9 @@ func (dc *dcache2) isEmpty(c *square) bool {
 	s := 1 << (c.n - 1) // half side
 	_, d := dc.evaluate(c.v.AddScalar(s))
 	// compare to the center/corner distance
-	return math.Abs(d) >= dc.hdiag[c.n]
+	// The test is strict and leaves a rounding margin: a surface that only touches a
+	// corner of the square still generates output in the cells at that corner.
+	return math.Abs(d) > dc.hdiag[c.n]*(1+emptyMargin)
 }
 
 // Process a square. Generate line segments, or more squares.
